@@ -184,6 +184,19 @@ def lookup_history_obligations(ctx: Any, R: str, eff: Any) -> List[Ob]:
             got = {tuple(x for x in strip_ret(t)) for t in oc}
             want = ('ASK',) if qu else (('CONSULT',) if sup else ('CONSULT', 'RECORD', 'ASK'))
             obs.append(ob(R, f, f'lookup: QU={qu} history suppresses={sup}', f'effects {want}', got == {want}, f'got {sorted(got)} undecided {und}'))
+    # `omitting questions whose answers it already holds` -- and only those: with the omit flag on, the question is left out iff
+    # the cache holds a record of that name / type / class that is still good as a known answer (not stale).  Records that
+    # are cached but stale (expired and waiting for the purge, or past half their TTL) are not answers the lookup holds: a
+    # builder that omits the question for them never asks for the very record the lookup is waiting for
+    readers = sorted({call_name(c) for c in walk_local_ordered(f.node) if isinstance(c, ast.Call) and isinstance(c.func, ast.Attribute) and call_name(c) in ('get_all_by_details', 'async_all_by_details', 'get_by_details', 'async_entries_with_name', 'entries_with_name')})
+    for cached, stale in (('none', False), ('one', True), ('one', False)):
+        atoms2 = {p_qu: True, p_skip: True, '.is_stale()': stale, '.is_expired()': stale}
+        for r_ in readers:
+            atoms2[f'.{r_}()'] = [] if cached == 'none' else [fd.Sym('rec')]
+        oc2, und2 = traces(ctx, f, atoms2, eff, loop_bound=1)
+        asked = {('ASK' in t) for t in oc2}
+        want_ask = cached == 'none' or stale
+        obs.append(ob(R, f, f'lookup, omit-if-known: cached records {cached}{", stale" if cached == "one" and stale else (", fresh" if cached == "one" else "")}', f'the question is {"asked" if want_ask else "omitted"}', asked == {want_ask} and not und2, f'asked on {sorted(asked)}; undecided {und2}'))
     return obs
 
 
